@@ -549,6 +549,7 @@ var (
 	InvalidProofErr              = Error{Detail: "invalid proof", Code: InvalidProofErrCode}
 	SecretTooLongErr             = Error{Detail: "secret too long", Code: SecretTooLongErrCode}
 	NoProofsProvided             = Error{Detail: "no proofs provided", Code: InvalidProofErrCode}
+	NoOutputsProvided            = Error{Detail: "no outputs provided", Code: StandardErrCode}
 	DuplicateProofs              = Error{Detail: "duplicate inputs", Code: DuplicateInputErrCode}
 	DuplicateOutputs             = Error{Detail: "duplicate outputs", Code: DuplicateOutputErrCode}
 	QuoteNotExistErr             = Error{Detail: "quote does not exist", Code: MeltQuoteErrCode}
